@@ -126,6 +126,21 @@ Theorem C05_app_seqreset_refuted :
 Proof. exact app_seqreset_refuted. Qed.
 Print Assumptions C05_app_seqreset_refuted.
 
+(* PossResend(97)=Y, PossDupFlag=N, GapFillFlag on a non-SequenceReset: NEW messages - numbered by the codec, journaled,
+   counted, and replayed (with PossDupFlag=Y) on a ResendRequest *)
+Example C05_possresend_is_new :
+  raw_seq m_possresend = false /\ skip_journal m_possresend = false
+  /\ skip_journal (mkMsg (S "D") [(S "11", S "X"); (T43, S "N")]) = false
+  /\ skip_journal (mkMsg (S "D") [(S "11", S "X"); (T123, S "Y")]) = false
+  /\ (let l := run cfgS w_acceptor [i_logon 1; OSend m_possresend; i_resend 2 2 0] in
+      new_numbers (trace l) = [S "1"; S "2"]
+      /\ map fst (j_out (jr (final cfgS w_acceptor [i_logon 1; OSend m_possresend; i_resend 2 2 0]))) = [1; 2]
+      /\ j_sout (jr (final cfgS w_acceptor [i_logon 1; OSend m_possresend; i_resend 2 2 0])) = 2
+      /\ map (fun wm => (get T34 (mtags wm), get T43 (mtags wm), get (S "97") (mtags wm))) (wires (trace l))
+         = [(Some (S "1"), None, None); (Some (S "2"), None, Some (S "Y")); (Some (S "2"), Some (S "Y"), Some (S "Y"))]).
+Proof. exact possresend_is_new. Qed.
+Print Assumptions C05_possresend_is_new.
+
 Example C05_nonvacuous :
   Out_inv w_acceptor /\ I64MIN <= nout w_acceptor /\ nout (final cfgS w_acceptor h_c05_good) <= I64MAX + 1
   /\ Forall (fun s => ~ D20_step s) (run cfgS w_acceptor h_c05_good)
